@@ -73,3 +73,69 @@ func TestRegress_SharedExistsFlagSet(t *testing.T) {
 		}
 	}
 }
+
+// fixed (see known_findings.json): a session that ends while more updates are queued for it than its update channel
+// buffers (32) left the goroutine of the queue behind for ever (State.Close closed the queue without discarding).
+// Found by the contention family; schedule dependent, so the scenario is repeated a few times.
+func TestRegress_QueueOfClosedStateLeaks(t *testing.T) {
+	var sc scenario
+
+	sc.NUsers, sc.Teardown, sc.Seed, sc.NoParallel = 1, "logout-close", 120, true
+
+	for k := 0; k < 3; k++ {
+		writer := script{Box: "INBOX"}
+		for i := 0; i < 24; i++ {
+			writer.Steps = append(writer.Steps, step{Kind: "cmd", Text: []string{`STORE 1:* FLAGS (\Flagged)`, `STORE 1:* FLAGS (\Answered kw)`, `STORE 1:* +FLAGS (\Draft)`}[i%3]})
+		}
+
+		writer.Steps = append(writer.Steps, step{Kind: "logout"})
+		sc.Scripts = append(sc.Scripts, writer)
+	}
+
+	// readers that leave early, in the middle of the traffic
+	for k := 0; k < 8; k++ {
+		reader := script{Box: "INBOX"}
+		for i := 0; i < k%3; i++ {
+			reader.Steps = append(reader.Steps, step{Kind: "cmd", Text: "FETCH 1:* BODY.PEEK[]"})
+		}
+
+		reader.Steps = append(reader.Steps, step{Kind: "logout"})
+		sc.Scripts = append(sc.Scripts, reader)
+	}
+
+	for round := 0; round < 4; round++ {
+		dir, err := os.MkdirTemp("", "c19-regress-")
+		if err != nil {
+			t.Fatalf("harness: %v", err)
+		}
+
+		raw, _ := json.Marshal(sc)
+		if err := os.WriteFile(filepath.Join(dir, "scenario.json"), raw, 0o644); err != nil {
+			t.Fatalf("harness: %v", err)
+		}
+
+		cmd := exec.Command(os.Args[0], "-test.run=^TestChildScenario$", "-test.count=1", "-test.timeout=600s")
+		cmd.Env = append(os.Environ(),
+			"C19_SCENARIO="+filepath.Join(dir, "scenario.json"),
+			"C19_OUTCOME="+filepath.Join(dir, "outcome.json"),
+			"GORACE=log_path="+filepath.Join(dir, "race")+" halt_on_error=0 history_size=3",
+			"VERIF_PARTS_DIR=", "TMPDIR="+dir)
+
+		_, _ = cmd.CombinedOutput()
+
+		var out outcome
+
+		ob, err := os.ReadFile(filepath.Join(dir, "outcome.json"))
+		os.RemoveAll(dir)
+
+		if err != nil || json.Unmarshal(ob, &out) != nil {
+			continue
+		}
+
+		for _, p := range out.Problems {
+			if strings.Contains(p, "still alive") && strings.Contains(p, "NewQueuedChannel") {
+				t.Fatalf("%s (round %d)", p, round)
+			}
+		}
+	}
+}
